@@ -1962,8 +1962,10 @@ func (f *fragment) mergeBlock(id int, data []pairSet) (sets, clears []pairSet, e
 	sets = make([]pairSet, len(data)+1)
 	clears = make([]pairSet, len(data)+1)
 
-	// Limit upper row/column pair.
-	maxRowID := uint64(id+1) * HashBlockSize
+	// Limit upper row/column pair: the last row of the block. (The first row
+	// of the next block is not part of it: the remote data does not hold it,
+	// so the local bits of that row would be outvoted and cleared.)
+	maxRowID := uint64(id+1)*HashBlockSize - 1
 	maxColumnID := uint64(ShardWidth)
 
 	// Create buffered iterator for local block.
